@@ -50,6 +50,10 @@ func verifSetFreezeRealTimers(b bool) { verifFreezeRealTimers = b }
 do("proc.go", [
     ("const forcePreemptNS = 10 * 1000 * 1000 // 10ms", "const forcePreemptNS = 3600 * 1000 * 1000 * 1000 // verif: 1h"),
     ("func execute(gp *g, inheritTime bool) {\n\tmp := getg().m\n", "func execute(gp *g, inheritTime bool) {\n\tverifExecTicks++\n\tmp := getg().m\n"),
+    # a goroutine that yields (Gosched, or a seeded preemption) goes to the tail of the P's own queue, not to the
+    # global queue: the global queue is looked at every 61st scheduling round, and the round counter also
+    # advances for runtime goroutines that sysmon injects at wall-clock-dependent moments (scavenger)
+    ("\tif preempted && sched.gcwaiting.Load() {\n", "\tif verifDetOn {\n\t\trunqput(pp, gp, false)\n\t} else if preempted && sched.gcwaiting.Load() {\n"),
 ], append="""
 // verif: number of times any goroutine was given the processor (single P: a plain counter). A process
 // whose count stands still is blocked for good; the simulator's wedge watcher reads it.
@@ -70,12 +74,15 @@ do("rand.go", [
      "\tseed := &globalRand.seed\n\tfor i := range seed {\n\t\tseed[i] = byte(i*37 + 11)\n\t}\n\tif false && len(startupRand) >= 16 &&"),
     ("\t} else {\n\t\tif readRandom(seed[:]) != len(seed) || allZero(seed[:]) {",
      "\t} else if false {\n\t\tif readRandom(seed[:]) != len(seed) || allZero(seed[:]) {"),
+    # a new M (created whenever the P is handed over after a blocking system call: wall-clock dependent) must not
+    # draw from the seeded stream that user code (math/rand/v2, crypto's MaybeReadByte) reads
+    ("\tmp.cheaprand = rand()\n", "\tmp.cheaprand = uint64(mp.id)*0x9e3779b97f4a7c15 + 0x1234567\n"),
     ("func rand() uint64 {\n", "func rand() uint64 {\n\tif verifDetOn {\n\t\treturn verifDetNext(&verifDet[2])\n\t}\n"),
     ("func maps_rand() uint64 {\n\treturn rand()\n}", "func maps_rand() uint64 {\n\tif verifDetOn {\n\t\treturn verifDetNext(&verifDet[1])\n\t}\n\treturn rand()\n}"),
 ], append="""
 // verif: seedable global splitmix64 streams.
-// 0: select poll order and same-instant bubble timer order, 1: map seeds, 2: rand().
-var verifDet [3]uint64
+// 0: select poll order and same-instant bubble timer order, 1: map seeds, 2: rand(), 3: interface cache rebuilds.
+var verifDet [4]uint64
 var verifDetOn = true
 
 //go:nosplit
@@ -101,9 +108,94 @@ func verifSetDetSeed(seed uint64) {
 	verifDet[0] = seed ^ 0x1111111111111111
 	verifDet[1] = seed ^ 0x2222222222222222
 	verifDet[2] = seed ^ 0x3333333333333333
+	verifDet[3] = seed ^ 0x4444444444444444
 	verifDetOn = true
 }
 """)
+
+do("malloc.go", [
+    ("\t// Short-circuit zero-sized allocation requests.\n\tif size == 0 {\n\t\treturn unsafe.Pointer(&zerobase)\n\t}\n\n\tif sizeSpecializedMallocEnabled && heapBitsInSpan(size) {",
+     "\t// Short-circuit zero-sized allocation requests.\n\tif size == 0 {\n\t\treturn unsafe.Pointer(&zerobase)\n\t}\n\tif verifPreemptN != 0 {\n\t\tverifMaybePreempt()\n\t}\n\n\tif sizeSpecializedMallocEnabled && heapBitsInSpan(size) {"),
+], append="""
+// verif: seeded preemption. A goroutine that registered itself is asked to yield the processor (exactly
+// as sysmon asks a goroutine that has run for 10 ms: preempt flag + poisoned stack guard, honoured at the
+// next function prologue) after a pseudo-random number of its own allocations. With a single P, the
+// forced-preemption timer moved out of reach and asynchronous preemption off, this is the only way a
+// goroutine loses the processor between two blocking operations, and it is a pure function of the seed.
+type verifPreemptEntry struct {
+	goid   uint64
+	left   int64
+	period uint64
+	state  uint64
+	count  uint64
+}
+
+var verifPreemptG [64]verifPreemptEntry
+var verifPreemptN int
+
+func verifMaybePreempt() {
+	gp := getg()
+	if gp.m.curg != gp {
+		return
+	}
+	id := gp.goid
+	for i := 0; i < verifPreemptN; i++ {
+		e := &verifPreemptG[i]
+		if e.goid != id {
+			continue
+		}
+		e.left--
+		if e.left <= 0 {
+			e.left = 1 + int64(verifDetNext(&e.state)%e.period)
+			e.count++
+			gp.preempt = true
+			gp.stackguard0 = stackPreempt
+		}
+		return
+	}
+}
+
+// verifPreemptMe registers (period > 0) or unregisters (period == 0) the calling goroutine; it returns
+// how often the goroutine was asked to yield so far.
+//
+//go:linkname verifPreemptMe
+func verifPreemptMe(period uint64, seed uint64) uint64 {
+	id := getg().goid
+	for i := 0; i < verifPreemptN; i++ {
+		e := &verifPreemptG[i]
+		if e.goid == id {
+			n := e.count
+			if period == 0 {
+				verifPreemptG[i] = verifPreemptG[verifPreemptN-1]
+				verifPreemptN--
+			} else {
+				e.period, e.state = period, seed
+			}
+			return n
+		}
+	}
+	if period == 0 || verifPreemptN == len(verifPreemptG) {
+		return 0
+	}
+	e := &verifPreemptG[verifPreemptN]
+	*e = verifPreemptEntry{goid: id, period: period, state: seed}
+	e.left = 1 + int64(verifDetNext(&e.state)%period)
+	verifPreemptN++
+	return 0
+}
+""")
+
+# type-assertion / interface-switch caches are rebuilt "one time in about 1000", decided by the per-M cheaprand:
+# which M runs the single P is not ours to decide, and a rebuild allocates (it would move every later
+# seeded preemption point of the goroutine by one). Decided by a process-wide seeded stream instead.
+s_iface = open(os.path.join(goroot, "src/runtime/iface.go")).read()
+n_sites = s_iface.count("cheaprand()&")
+if n_sites != 4:
+    die("iface.go: expected 4 cheaprand sites, found %d" % n_sites)
+o = os.path.join(out, "iface.go")
+s_iface = s_iface.replace("cheaprand()&", "uint32(verifDetNext(&verifDet[3])>>32)&")
+open(o, "w").write(s_iface)
+replace[os.path.join(goroot, "src/runtime/iface.go")] = o
 
 json.dump({"Replace": replace}, open(os.path.join(out, "overlay.json"), "w"), indent=1)
 print("mkoverlay: wrote", len(replace), "files to", out)
